@@ -181,10 +181,13 @@ def random_program(rng):
             if d >= 2:
                 code.append(["SWAP", str(rng.randrange(1, d))])
                 ops += 1
-        elif r < 0.88:
+        elif r < 0.86:
             if d < MAX_DEPTH:
                 code.append(push(rand_word(rng)))
                 d += 1
+        elif r < 0.88:
+            if d < MAX_DEPTH:
+                d = env_step(rng, code, d)
         elif r < 0.90:
             if d >= 2:
                 code.append(["POP"])
@@ -316,6 +319,55 @@ def mem_program(rng):
     return {"kind": "mem", "code": code}
 
 
+ENV0 = ["ADDRESS", "ORIGIN", "CALLER", "CALLVALUE", "GASPRICE", "SELFBALANCE", "NETWORKID", "CODESIZE", "CALLDATASIZE", "COINBASE",
+        "TIMESTAMP", "NUMBER", "DIFFICULTY", "GASLIMIT"]
+ENV1 = ["BALANCE", "EXTCODESIZE", "EXTCODEHASH"]
+# the accounts of the driver's set-up (harness/drive/evmword: contract, origin, funded, other contract, missing, coinbase)
+KNOWN_ACCTS = [int.from_bytes(n, "big") for n in (b"contract", b"origin-account", b"funded-account", b"other-contract",
+                                                   b"no-such-account", b"coinbase-account")]
+
+
+def env_step(rng, code, d):
+    """One state-reading opcode; returns the new stack depth."""
+    if rng.random() < 0.7:
+        code.append([rng.choice(ENV0 + ["SELFBALANCE"] * 4)])
+    else:
+        code += [push(rng.choice(KNOWN_ACCTS)), [rng.choice(ENV1)]]
+    return d + 1
+
+
+def env_program(rng):
+    """State-reading opcodes (SELFBALANCE, BALANCE, ADDRESS, CALLER, ...) followed by arithmetic on the pushed values, DUP /
+    SWAP / POP of them and further pushes: the values are the environment's, and the world is not changed by reading it."""
+    code, d = [], 0
+    for _ in range(rng.randrange(2, 8)):
+        d = env_step(rng, code, d)
+        r = rng.random()
+        if r < 0.35:                                   # in-place arithmetic with the value below a constant
+            code += [push(rng.choice([1, 3, 255, T256 - 1])), [rng.choice(["ADD", "MUL", "SUB", "XOR", "OR", "SHL", "LT"])]]
+        elif r < 0.5:                                  # the value on top of a constant
+            code += [push(rng.choice([2, 7, T255])), ["SWAP", "1"], [rng.choice(["ADD", "MUL", "DIV", "AND", "SDIV", "EXP"])]]
+        elif r < 0.6:
+            code += [["DUP", "1"], [rng.choice(["ADD", "MUL", "EQ"])]]
+            code[-2:-2] = []
+        elif r < 0.7 and d >= 2:
+            code += [["SWAP", str(rng.randrange(1, d))], [rng.choice(["NOT", "ISZERO"])]]
+        elif r < 0.85:
+            code.append(["POP"])
+            d -= 1
+        for _ in range(rng.randrange(0, 3)):           # later stack activity recycles pooled integers
+            if d < MAX_DEPTH:
+                code.append(push(rand_word(rng)))
+                d += 1
+            if d >= 2 and rng.random() < 0.6:
+                code.append([rng.choice(["ADD", "MUL", "AND", "POP"])])
+                d -= 1
+        while d > MAX_DEPTH - 2:
+            code.append(["POP"])
+            d -= 1
+    return {"kind": "env", "code": code}
+
+
 def sto_program(rng):
     """SSTORE / SLOAD sequences over slots with and without a committed value: every branch of net gas metering
     (no-op, fresh set, reset of an original value, dirty slot, clearing and restoring)."""
@@ -349,14 +401,15 @@ def generate(ctx):
     for q in progs[-nprog:]:
         if rng.random() < 0.6:
             q["sto0"] = STO0
-    nmem, nsto = (300, 250) if ctx.quick else (1200, 2000)
+    nmem, nsto, nenv = (300, 250, 300) if ctx.quick else (1200, 2000, 3000)
     progs += [mem_program(rng) for _ in range(nmem)] + [sto_program(rng) for _ in range(nsto)]
+    progs += [env_program(rng) for _ in range(nenv)]
     pp = pool_programs(ctx, rng)
     progs += pp
     for i, p in enumerate(progs):
         p["id"] = i
     ctx.note("programs: %d witnesses, %d grid singles, %d random singles, %d random programs, %d memory-growth, %d storage, "
-             "%d from the pool model" % (nw, ng, ns, nprog, nmem, nsto, len(pp)))
+             "%d environment, %d from the pool model" % (nw, ng, ns, nprog, nmem, nsto, nenv, len(pp)))
     return progs
 
 
@@ -468,20 +521,23 @@ def run(ctx):
                         "gas is judged for the computational opcodes, for MLOAD/MSTORE/MSTORE8 (3 + memory expansion, the allocated "
                         "words tracked per program) and for SLOAD/SSTORE (Istanbul: 800 / EIP-2200 net metering against the storage "
                         "committed before the transaction); refunds are not judged",
+                        "state-reading opcodes (ADDRESS, ORIGIN, CALLER, CALLVALUE, GASPRICE, SELFBALANCE, NETWORKID, CODESIZE, CALLDATASIZE, "
+                        "COINBASE, TIMESTAMP, NUMBER, DIFFICULTY, GASLIMIT, BALANCE, EXTCODESIZE, EXTCODEHASH) are judged for their value "
+                        "(the driver's set-up), the rest of the stack and the balances before / after the program; their gas is not judged",
                         "functional results, stack effect and gas only: no statement about big.Int memory safety or speed"]
     model_check(ctx)
     progs = generate(ctx)
     for p in (progs[0], progs[len(progs) // 2], progs[-1]):
         ctx.sample(p)
     distinct = {json.dumps(p["code"]) for p in progs if p["kind"] != "prog"}
-    ctx.cov["distinct_nontrivial"] = len(distinct) + sum(1 for p in progs if p["kind"] in ("prog", "pool", "mem", "sto"))
+    ctx.cov["distinct_nontrivial"] = len(distinct) + sum(1 for p in progs if p["kind"] in ("prog", "pool", "mem", "sto", "env"))
     trace = judge(ctx, progs)
     if not ctx.quick:
         selftest(ctx, trace)
         pool_variant(ctx, [p for p in progs if p["kind"] in ("prog", "pool")][:4000])
     fired = ctx.cov.get("clauses_fired", {})
     never = sorted(c for c in ("Result", "RestUnchanged", "Cost", "StackOp", "MemReadBack", "StorageReadBack", "Executes",
-                               "FinalMemory", "FinalStorage") if not fired.get(c))
+                               "FinalMemory", "FinalStorage", "EnvOpsReadOnly") if not fired.get(c))
     if never:
         raise vlib.Undecided("vacuous clauses (never evaluated): %s" % never)
 
